@@ -31,6 +31,9 @@ type verifTracer struct {
 func (t *verifTracer) add(kind string, tx *Transition) {
 	t.log = append(t.log, verifTrace{kind: kind, mut: tx.Mutation, before: tx.TimeBefore, after: tx.TimeAfter,
 		acc: tx.IsAccepted.Load(), mach: t.m.time(nil), ncalls: len(t.scn.calls), active: t.m.ActiveStates(nil)})
+	if t.scn.traceHook != nil {
+		t.scn.traceHook(kind)
+	}
 }
 func (t *verifTracer) TransitionInit(tx *Transition)   { t.add("init", tx) }
 func (t *verifTracer) TransitionStart(tx *Transition)  { t.add("start", tx) }
@@ -59,6 +62,8 @@ type verifScn struct {
 	// fault injection (C08): returns true when the handler call must fault
 	faultHook func(name string) bool
 	faultNow  bool
+	// traceHook is called from every transition tracer hook (init, start, finals, end)
+	traceHook func(kind string)
 	// eventHook is called with the event of every handler call
 	eventHook func(name string, e *Event)
 }
